@@ -791,6 +791,36 @@ func ruleReplCompressionSiblings(c *Ctx, r *Reporter) {
 		}
 		return name, ret
 	}
+	// results are fresh memory: no destination buffer other than nil is handed to the library, nothing of the result is kept
+	// in the manager (the replica decompresses every entry of a batch before it applies the first one)
+	for _, fn := range []*ssa.Function{comp, deco} {
+		var bad []string
+		AllInstrs(fn, false, func(_ *ssa.Function, ins ssa.Instruction) {
+			switch x := ins.(type) {
+			case *ssa.Call:
+				f := x.Call.StaticCallee()
+				if f == nil || f.Pkg == nil || strings.HasPrefix(f.Pkg.Pkg.Path(), modPath) {
+					return
+				}
+				pth := f.Pkg.Pkg.Path()
+				if !strings.Contains(pth, "zstd") && !strings.Contains(pth, "snappy") {
+					return
+				}
+				for _, a := range x.Call.Args {
+					if a.Type().String() != "[]byte" || a == ssa.Value(fn.Params[1]) || isNilConst(a) {
+						continue
+					}
+					bad = append(bad, "a destination buffer ("+Path(a)+") is handed to "+f.Name()+" at "+c.InsPos(ins))
+				}
+			case *ssa.Store:
+				if fa, ok := x.Addr.(*ssa.FieldAddr); ok && fa.X == ssa.Value(fn.Params[0]) && x.Val.Type().String() == "[]byte" {
+					bad = append(bad, "a byte slice is kept in the manager ("+fieldName(fa)+") at "+c.InsPos(ins))
+				}
+			}
+		})
+		r.Check(len(bad) == 0, FnName(fn)+":fresh-result", c.FnPos(fn), "the result is freshly allocated by the library (nil destination, nothing retained)",
+			"the result can share memory with the manager's state or with an earlier result: "+strings.Join(bad, "; ")+" — the replica decompresses all entries of a batch before applying them, so earlier payloads are overwritten by later ones")
+	}
 	codecs := map[int64]string{0: "NONE", 1: "ZSTD", 2: "SNAPPY", 7: "unknown"}
 	for _, k := range []int64{0, 1, 2, 7} {
 		cn, cr := libCall(comp, k)
